@@ -33,6 +33,8 @@ import (
 	"github.com/cloudflare/circl/kem"
 	kemschemes "github.com/cloudflare/circl/kem/schemes"
 	"github.com/cloudflare/circl/kem/sike/sikep434"
+	"github.com/cloudflare/circl/kem/sike/sikep503"
+	"github.com/cloudflare/circl/kem/sike/sikep751"
 	"github.com/cloudflare/circl/math/fp25519"
 	"github.com/cloudflare/circl/math/fp448"
 	"github.com/cloudflare/circl/sign"
@@ -502,6 +504,51 @@ func restOfRound(t *rapid.T, tr *transcript) {
 		ab := make([]byte, a.Size())
 		a.Export(ab)
 		tr.emit("sidh/p503", "", [][]byte{u64b(sda), u64b(sdb)}, [][]byte{ab, pab, s1, s2})
+	}
+	// ---- the other SIDH / SIKE parameter sets (slow on the portable back-end: one in ten rounds each)
+	for _, fld := range []struct {
+		id   uint8
+		name string
+	}{{sidh.Fp434, "p434"}, {sidh.Fp751, "p751"}} {
+		if rapid.IntRange(0, 9).Draw(t, "sidh"+fld.name) != 0 {
+			continue
+		}
+		sa, sb := rapid.Uint64().Draw(t, "sa"+fld.name), rapid.Uint64().Draw(t, "sb"+fld.name)
+		a := sidh.NewPrivateKey(fld.id, sidh.KeyVariantSidhA)
+		b := sidh.NewPrivateKey(fld.id, sidh.KeyVariantSidhB)
+		_ = a.Generate(vlib.NewReader(sa))
+		_ = b.Generate(vlib.NewReader(sb))
+		pa := sidh.NewPublicKey(fld.id, sidh.KeyVariantSidhA)
+		pb := sidh.NewPublicKey(fld.id, sidh.KeyVariantSidhB)
+		a.GeneratePublicKey(pa)
+		b.GeneratePublicKey(pb)
+		s1 := make([]byte, a.SharedSecretSize())
+		s2 := make([]byte, b.SharedSecretSize())
+		a.DeriveSecret(s1, pb)
+		b.DeriveSecret(s2, pa)
+		pab, pbb := make([]byte, pa.Size()), make([]byte, pb.Size())
+		pa.Export(pab)
+		pb.Export(pbb)
+		var seeds [16]byte
+		for i := 0; i < 8; i++ {
+			seeds[i], seeds[8+i] = byte(sa>>(8*i)), byte(sb>>(8*i))
+		}
+		tr.emit("sidh/"+fld.name, "", [][]byte{seeds[:]}, [][]byte{pab, pbb, s1, s2})
+	}
+	for _, ks := range []kem.Scheme{sikep503.Scheme(), sikep751.Scheme()} {
+		if rapid.IntRange(0, 9).Draw(t, "sike"+ks.Name()) != 0 {
+			continue
+		}
+		seed := vlib.EdgeBytes(t, ks.SeedSize(), "sks2")
+		eseed := vlib.EdgeBytes(t, ks.EncapsulationSeedSize(), "ske2")
+		pk, sk := ks.DeriveKeyPair(seed)
+		ct, ss, err := ks.EncapsulateDeterministically(pk, eseed)
+		if err != nil {
+			t.Fatalf("sike encapsulate: %v", err)
+		}
+		ss2, _ := ks.Decapsulate(sk, ct)
+		pkb, _ := pk.MarshalBinary()
+		tr.emit("sike/"+ks.Name(), "", [][]byte{seed, eseed}, [][]byte{pkb, ct, ss, ss2})
 	}
 	// ---- CSIDH (≈ 50 ms per action: one in six rounds)
 	if rapid.IntRange(0, 5).Draw(t, "csidh") == 0 {
